@@ -71,7 +71,7 @@ void h_process_answer(void)
   if (matched && !g_edns_issue && udp_tc) __CPROVER_assert(q.using_tcp == ARES_TRUE && g_appended == 1 && g_append_server == NULL && !g_delivered && g_requeue_calls == 0, "C20: a truncated UDP answer is retried over TCP");
   if (matched && !g_edns_issue && !udp_tc && bad_rcode) __CPROVER_assert(g_incfail == 1 && g_requeue_calls == 1 && g_requeue_inc == ARES_TRUE && g_requeue_status != ARES_SUCCESS, "C06/C09: an error rcode demotes the server and consumes one try");
   if (matched && g_edns_issue) __CPROVER_assert(g_rewrite_ok ? (g_appended == 1 && g_append_server == &srv && g_requeue_calls == 0) : (g_failed == 1), "C06: the EDNS downgrade resends to the same server without consuming a try");
-  if (matched && !g_edns_issue && !udp_tc && !bad_rcode) __CPROVER_assert(g_delivered == 1 && rv == ARES_SUCCESS, "C01: an authentic matching answer completes the request");
+  if (matched && !g_edns_issue && !udp_tc && !bad_rcode) __CPROVER_assert(g_delivered == 1 && rv == ARES_SUCCESS, "C01/C06/C20: an authentic matching answer completes the request (also a truncated one that arrived over a stream: it is final, never resent)");
   ares_bool_t tcp0 = tcp_before;
   if (!matched) __CPROVER_assert(g_conn_node_destroyed == 0 && g_appended + g_requeue_calls + g_failed + g_incfail == 0 && q.using_tcp == tcp0, "C05: any other packet never supplies data to, or disturbs, any request");
 }
